@@ -1134,7 +1134,7 @@ fn gen_d(rng: &mut Rng, cap: usize, len: usize, style: u32) -> String {
                 let t = if rng.chance(1, 2) { "F".to_string() } else { rng.below(clock).to_string() };
                 format!("L:{}:{}", pick(rng, &g.live, g.next), t)
             }
-            70..=72 => format!("M:{}:{}", pick(rng, &g.live, g.next), *rng.pick(&["P", "C", "N", "P", "D", "G"])),
+            70..=72 => format!("M:{}:{}", pick(rng, &g.live, g.next), *rng.pick(&["P", "C", "N", "P", "D"])),
             73..=75 => match rng.below(5) {
                 0 => "p:-".to_string(),
                 1 => format!("p:{}", pick(rng, &g.live, g.next)),
